@@ -3,6 +3,8 @@
 package kessoku
 
 import (
+	"go/types"
+
 	vs "github.com/mazrean/kessoku/internal/verifspec"
 )
 
@@ -16,15 +18,145 @@ import (
 
 func issued(p *VarPool, s string) bool { return p.vars[s] >= 1 }
 
+// poolInv: counters are never negative (data-structure invariant of VarPool).
+func poolInv(p *VarPool) bool {
+	return p != nil && p.vars != nil && vs.ForallString(func(s string) bool { return p.vars[s] >= 0 })
+}
+
+//kvc:purepkg go/types
+//kvc:pure github.com/mazrean/kessoku/internal/pkg/strings.ToLowerCamel
+
 //kvc:contract (*VarPool).GetName
 func contract_VarPool_GetName(p *VarPool, baseName string) (result string) {
-	vs.Requires(p != nil && p.vars != nil)
+	vs.Requires(poolInv(p))
 	vs.Ensures("fresh", !vs.Old(issued(p, result)))
 	vs.Ensures("recorded", issued(p, result) && issued(p, baseName))
 	vs.Ensures("monotone", vs.ForallString(func(s string) bool { return vs.Implies(vs.Old(issued(p, s)), issued(p, s)) }))
 	vs.Ensures("exact", vs.ForallString(func(s string) bool {
 		return vs.Implies(issued(p, s), vs.Old(issued(p, s)) || s == result || s == baseName)
 	}))
+	vs.Ensures("inv", poolInv(p))
 	vs.Modifies(p.vars)
+	vs.Witness("old_count_of_base", vs.Old(p.vars[baseName]))
+	vs.Witness("old_count_of_result", vs.Old(p.vars[result]))
+	return
+}
+
+//kvc:loop (*VarPool).GetName "for {"
+func inv_GetName_search(p *VarPool, baseName string, count int) {
+	vs.Invariant("count_pos", count >= 1)
+	vs.Invariant("base_taken", issued(p, baseName))
+	vs.Invariant("pool_unchanged", vs.ForallString(func(s string) bool { return p.vars[s] == vs.Old(p.vars[s]) }))
+}
+
+//kvc:contract (*VarPool).GetChannel
+func contract_VarPool_GetChannel(p *VarPool, t types.Type) (result string) {
+	vs.Requires(poolInv(p))
+	vs.Ensures("fresh", !vs.Old(issued(p, result)))
+	vs.Ensures("recorded", issued(p, result))
+	vs.Ensures("monotone", vs.ForallString(func(s string) bool { return vs.Implies(vs.Old(issued(p, s)), issued(p, s)) }))
+	vs.Ensures("inv", poolInv(p))
+	vs.Modifies(p.vars)
+	return
+}
+
+//kvc:contract (*VarPool).Get
+func contract_VarPool_Get(p *VarPool, t types.Type) (result string) {
+	vs.Requires(poolInv(p))
+	vs.Ensures("fresh", !vs.Old(issued(p, result)))
+	vs.Ensures("recorded", issued(p, result))
+	vs.Ensures("monotone", vs.ForallString(func(s string) bool { return vs.Implies(vs.Old(issued(p, s)), issued(p, s)) }))
+	vs.Ensures("inv", poolInv(p))
+	vs.Modifies(p.vars)
+	return
+}
+
+// getBaseName is a naming heuristic; freshness does not depend on what it returns.
+//
+//kvc:contract (*VarPool).getBaseName
+func contract_VarPool_getBaseName(p *VarPool, t types.Type) (result string) {
+	return
+}
+
+//kvc:contract NewVarPool
+func contract_NewVarPool() (result *VarPool) {
+	vs.Ensures("inv", poolInv(result))
+	vs.Ensures("predeclared_reserved", vs.Forall(len(goPredeclaredIdentifiers), func(i int) bool { return issued(result, goPredeclaredIdentifiers[i]) }))
+	vs.Ensures("keywords_reserved", vs.Forall(len(goReservedKeywords), func(i int) bool { return issued(result, goReservedKeywords[i]) }))
+	vs.Allocates()
+	return
+}
+
+//kvc:loop NewVarPool "for _, id := range goPredeclaredIdentifiers"
+func inv_NewVarPool_predeclared(vars map[string]int, kvcIdx int) {
+	vs.Invariant("nonneg", vars != nil && vs.ForallString(func(s string) bool { return vars[s] >= 0 }))
+	vs.Invariant("done", vs.Forall(kvcIdx, func(i int) bool { return vars[goPredeclaredIdentifiers[i]] >= 1 }))
+}
+
+//kvc:loop NewVarPool "for _, id := range goReservedKeywords"
+func inv_NewVarPool_keywords(vars map[string]int, kvcIdx int) {
+	vs.Invariant("nonneg", vars != nil && vs.ForallString(func(s string) bool { return vars[s] >= 0 }))
+	vs.Invariant("predeclared", vs.Forall(len(goPredeclaredIdentifiers), func(i int) bool { return vars[goPredeclaredIdentifiers[i]] >= 1 }))
+	vs.Invariant("done", vs.Forall(kvcIdx, func(i int) bool { return vars[goReservedKeywords[i]] >= 1 }))
+}
+
+// Lemma (C12): in any history of requests on one pool, a name handed out is
+// different from every name handed out earlier and from every identifier that
+// was reserved or registered before it. The loop stands for an arbitrary
+// number of arbitrary intermediate requests; the proof uses the contracts of
+// GetName only.
+//
+//kvc:contract lemmaAllocHistory
+func contract_lemmaAllocHistory(p *VarPool, first string, between []string, last string) {
+	vs.Requires(poolInv(p))
+	vs.Modifies(p.vars)
+}
+
+func lemmaAllocHistory(p *VarPool, first string, between []string, last string) {
+	x := p.GetName(first)
+	vs.Assert("first_not_reserved", !vs.Old(issued(p, x)))
+	for _, b := range between {
+		y := p.GetName(b)
+		vs.Assert("intermediate_differs", y != x)
+	}
+	z := p.GetName(last)
+	vs.Assert("later_name_differs", z != x)
+	vs.Assert("later_name_not_reserved", !vs.Old(issued(p, z)))
+	vs.Assert("registered_base_never_reissued", z != first)
+}
+
+//kvc:loop lemmaAllocHistory "for _, b := range between"
+func inv_lemmaAllocHistory(p *VarPool, first string, x string) {
+	vs.Invariant("inv", poolInv(p))
+	vs.Invariant("x_stays_issued", issued(p, x) && issued(p, first))
+	vs.Invariant("monotone", vs.ForallString(func(s string) bool { return vs.Implies(vs.Old(issued(p, s)), issued(p, s)) }))
+}
+
+// InjectorParam names are memoised: a parameter asks the pool at most once for
+// its variable name and at most once for its channel name.
+//
+//kvc:contract (*InjectorParam).Name
+func contract_InjectorParam_Name(ip *InjectorParam, varPool *VarPool) (result string) {
+	vs.Requires(ip != nil && poolInv(varPool) && len(ip.types) >= 1)
+	vs.Ensures("memo_hit", vs.Implies(vs.Old(ip.name) != "", result == vs.Old(ip.name) && ip.name == vs.Old(ip.name) &&
+		vs.ForallString(func(s string) bool { return varPool.vars[s] == vs.Old(varPool.vars[s]) })))
+	vs.Ensures("unreferenced_blank", vs.Implies(vs.Old(ip.name) == "" && ip.refCounter == 0, result == "_" && ip.name == ""))
+	vs.Ensures("fresh_when_allocated", vs.Implies(vs.Old(ip.name) == "" && ip.refCounter != 0, !vs.Old(issued(varPool, result)) && issued(varPool, result) && ip.name == result))
+	vs.Ensures("monotone", vs.ForallString(func(s string) bool { return vs.Implies(vs.Old(issued(varPool, s)), issued(varPool, s)) }))
+	vs.Ensures("inv", poolInv(varPool))
+	vs.Modifies(ip.name, varPool.vars)
+	return
+}
+
+//kvc:contract (*InjectorParam).ChannelName
+func contract_InjectorParam_ChannelName(ip *InjectorParam, varPool *VarPool) (result string) {
+	vs.Requires(ip != nil && poolInv(varPool) && len(ip.types) >= 1)
+	vs.Ensures("memo_hit", vs.Implies(vs.Old(ip.channelName) != "", result == vs.Old(ip.channelName) && ip.channelName == vs.Old(ip.channelName) &&
+		vs.ForallString(func(s string) bool { return varPool.vars[s] == vs.Old(varPool.vars[s]) })))
+	vs.Ensures("unreferenced_blank", vs.Implies(vs.Old(ip.channelName) == "" && ip.refCounter == 0, result == "_" && ip.channelName == ""))
+	vs.Ensures("fresh_when_allocated", vs.Implies(vs.Old(ip.channelName) == "" && ip.refCounter != 0, !vs.Old(issued(varPool, result)) && issued(varPool, result) && ip.channelName == result))
+	vs.Ensures("monotone", vs.ForallString(func(s string) bool { return vs.Implies(vs.Old(issued(varPool, s)), issued(varPool, s)) }))
+	vs.Ensures("inv", poolInv(varPool))
+	vs.Modifies(ip.channelName, varPool.vars)
 	return
 }
